@@ -42,7 +42,11 @@ type obs struct {
 }
 
 // observe runs every inspection query on its own copy of the script under recover().
-func observe(s []byte) *obs {
+func observe(s []byte) *obs { return observeOpt(s, true) }
+
+// observeOpt: without withJSON the two node-JSON marshalling runs are skipped (used for the
+// 16.8 M three-byte scripts; they are compositions of ToASM, Addresses and ScriptType).
+func observeOpt(s []byte, withJSON bool) *obs {
 	o := &obs{}
 	var sb strings.Builder
 	scr := func() *bscript.Script { return bscript.NewFromBytes(append([]byte{}, s...)) }
@@ -108,6 +112,9 @@ func observe(s []byte) *obs {
 		return ";a+" + sg.Sabbr(a)
 	})
 	fix(";N", func() string {
+		if !withJSON {
+			return ";N"
+		}
 		tx := bt.NewTx()
 		tx.AddOutput(&bt.Output{Satoshis: 1000, LockingScript: scr()})
 		bb, err := json.Marshal(tx.NodeJSON())
@@ -133,6 +140,9 @@ func observe(s []byte) *obs {
 	for name, f := range map[string]func(){
 		"IsInscribed": func() { _ = scr().IsInscribed() },
 		"NodeJSON(input)": func() {
+			if !withJSON {
+				return
+			}
 			tx := bt.NewTx()
 			_ = tx.From("11b476ad8e0a48fcd40807a111a050af51114877e09283bfa7f3505081a1819d", 0, "76a914000102030405060708090a0b0c0d0e0f1011121388ac", 1500)
 			tx.Inputs[0].UnlockingScript = scr()
@@ -330,7 +340,7 @@ func main() {
 			if search && v%4 != int(c.Seed%4) {
 				continue
 			}
-			predicates(s, observe(s), "")
+			predicates(s, observeOpt(s, false), "")
 			n3++
 		}
 		c.Stats.Extra["three_byte_scripts_go_side_only"] = n3
@@ -353,13 +363,11 @@ func main() {
 				m := append([]byte{}, base...)
 				m[pos] = byte(v)
 				sel := full || byte(v) == base[pos]^0x01 || byte(v) == base[pos]^0xff || v == 0x00 || v == 0x4c || v == 0x6a
-				if sel || !search {
-					o := observe(m)
-					predicates(m, o, "")
-					nMut++
-					if sel {
-						scriptCase("mutate-byte/"+t.name, m, "", true)
-					}
+				nMut++
+				if sel {
+					scriptCase("mutate-byte/"+t.name, m, "", true)
+				} else {
+					predicates(m, observe(m), "")
 				}
 			}
 		}
